@@ -192,6 +192,9 @@ func runC19(r *simkit.Run, c Cfg) {
 		switch tp.Choose(10, "netfault") {
 		case 1, 2:
 			return simkit.FaultSpec{Kind: simkit.FChunk, K: 1 + tp.Choose(9, "chunk")}
+		case 6, 7:
+			// no Content-Length: the body ends with the connection
+			return simkit.FaultSpec{Kind: simkit.FNoLength, K: tp.Choose(3, "nlchunk") * 50}
 		case 3:
 			if faulty {
 				return simkit.FaultSpec{Kind: simkit.FResetMid, K: tp.Choose(300, "resetAt")}
